@@ -94,3 +94,35 @@ pub fn words(w: &mut dyn Write) {
         writeln!(w, "{}", json!({"base": base, "r": r, "kb": kb})).unwrap();
     }
 }
+
+/// one cell of one layout object, named as in the table ("De105Key", "Any(De105Key)", "&Any(De105Key)")
+pub fn one_cell(obj: &str, k: KeyCode, m: u32, h: HandleControl) -> i64 {
+    let (form, name) = if let Some(n) = obj.strip_prefix("&Any(") {
+        ("ref", n.trim_end_matches(')'))
+    } else if let Some(n) = obj.strip_prefix("Any(") {
+        ("any", n.trim_end_matches(')'))
+    } else {
+        ("plain", obj)
+    };
+    let idx = LAYOUT_NAMES.iter().position(|x| *x == name).expect("layout name") as u8;
+    let a = any_layout(idx);
+    match form {
+        "ref" => {
+            let r: &AnyLayout = &a;
+            cell(&r, k, m, h)
+        }
+        "any" => cell(&a, k, m, h),
+        _ => match idx {
+            0 => cell(&DVP104Key, k, m, h),
+            1 => cell(&Dvorak104Key, k, m, h),
+            2 => cell(&Us104Key, k, m, h),
+            3 => cell(&Uk105Key, k, m, h),
+            4 => cell(&Jis109Key, k, m, h),
+            5 => cell(&Azerty, k, m, h),
+            6 => cell(&Colemak, k, m, h),
+            7 => cell(&De105Key, k, m, h),
+            8 => cell(&No105Key, k, m, h),
+            _ => cell(&FiSe105Key, k, m, h),
+        },
+    }
+}
